@@ -743,3 +743,93 @@ theorem fork_run (ops : List FsOp) (fs0 : FS) (evs : List Ev) : ∀ (l : Link),
     exact ih (l.step e) (fun e' h' => he e' (List.mem_cons_of_mem _ h')) (fork_step ops fs0 l e (he e (List.mem_cons_self ..)) h)
 
 end PSO.Serializer
+
+namespace PSO.Serializer
+
+-- ------------------------------------------------------------------------------------------------
+-- D66: whenever the own dump child was started, a completed install leaves none behind
+-- ------------------------------------------------------------------------------------------------
+
+/-- what a follower does between the start of its own dump and the end of an incoming transfer: it receives messages
+(`some m`) and its fork child performs primitive operations (`none`), in any order -/
+def Ser.mix (s : Ser) : List (Option (Option Chunk)) → Ser
+  | [] => s
+  | none :: rest => Ser.mix s.childStep rest
+  | some m :: rest => Ser.mix (s.setTransmissionData m).1 rest
+
+/-- file + fork mode, and a child record exists only while `pid` says so -/
+def Ser.forkWF (s : Ser) : Prop :=
+  s.mode = .file ∧ s.fork = true ∧ ((s.pid = .idle ∧ s.child = none) ∨ s.pid = .child)
+
+theorem forkWF_set (s : Ser) (m : Option Chunk) (h : s.forkWF) : (s.setTransmissionData m).1.forkWF := by
+  obtain ⟨hm, hf, hp⟩ := h
+  unfold Ser.setTransmissionData
+  cases m with
+  | none => exact ⟨hm, hf, hp⟩
+  | some c =>
+    simp only
+    split
+    · exact ⟨hm, hf, hp⟩
+    · refine ⟨hm, hf, ?_⟩
+      rcases hp with ⟨h1, h2⟩ | h1
+      · left; simp [h1, h2]
+      · by_cases hl : c.isLast = true
+        · left; simp [hl, hm, hf, h1]
+        · right; simp [hl, h1]
+
+theorem forkWF_childStep (s : Ser) (h : s.forkWF) : s.childStep.forkWF := by
+  obtain ⟨hm, hf, hp⟩ := h
+  unfold Ser.childStep
+  cases hc : s.child with
+  | none => exact ⟨hm, hf, hp⟩
+  | some c =>
+    obtain ⟨ops, ok⟩ := c
+    cases ops with
+    | nil => exact ⟨hm, hf, hp⟩
+    | cons op rest =>
+      refine ⟨hm, hf, ?_⟩
+      rcases hp with ⟨_, h2⟩ | h1
+      · rw [hc] at h2; cases h2
+      · right; exact h1
+
+theorem forkWF_mix (evs : List (Option (Option Chunk))) : ∀ (s : Ser), s.forkWF → (s.mix evs).forkWF := by
+  induction evs with
+  | nil => intro s h; exact h
+  | cons e rest ih =>
+    intro s h
+    cases e with
+    | none => exact ih _ (forkWF_childStep s h)
+    | some m => exact ih _ (forkWF_set s m h)
+
+theorem forkWF_feed (ms : List (Option Chunk)) : ∀ (s : Ser), s.forkWF → (s.feed ms).1.forkWF := by
+  induction ms with
+  | nil => intro s h; exact h
+  | cons m ms ih =>
+    intro s h
+    rw [feed_cons]
+    exact ih _ (forkWF_set s m h)
+
+theorem forkWF_serialize (s : Ser) (id : Nat) (pieces : List Bytes) (fail : Bool) (h : s.forkWF) :
+    (s.serialize id pieces fail).1.forkWF := by
+  obtain ⟨hm, hf, hp⟩ := h
+  by_cases hidle : s.pid = .idle
+  · have : (s.serialize id pieces fail).1 =
+        { s with curId := id, pid := .child, child := some ⟨serializeOps pieces fail, !fail⟩ } := by
+      simp [Ser.serialize, hidle, hm, hf]
+    rw [this]; exact ⟨hm, hf, Or.inr rfl⟩
+  · have : (s.serialize id pieces fail).1 = s := by simp [Ser.serialize, hidle]
+    rw [this]; exact ⟨hm, hf, hp⟩
+
+/-- a completing `setTransmissionData` on a well-formed fork-mode serializer leaves no child and pid idle -/
+theorem forkWF_install (s : Ser) (c : Chunk) (h : s.forkWF) (hacc : c.isFirst = true ∨ s.incOpen = true)
+    (hl : c.isLast = true) :
+    (s.setTransmissionData (some c)).2 = true ∧ (s.setTransmissionData (some c)).1.child = none ∧
+    (s.setTransmissionData (some c)).1.pid = .idle := by
+  obtain ⟨hm, hf, hp⟩ := h
+  have hn : ¬ ((!c.isFirst && !s.incOpen) = true) := by
+    rcases hacc with h | h <;> simp [h]
+  rcases hp with ⟨h1, h2⟩ | h1
+  · simp [Ser.setTransmissionData, hn, hl, h1, h2]
+  · simp [Ser.setTransmissionData, hn, hl, hm, hf, h1]
+
+end PSO.Serializer
